@@ -102,7 +102,7 @@ class C15(Case):
             return data, out
         # operand / argument positions
         need = S.extras_needed(sp["c"])
-        xs = S.make_objects(mk, Item, "x_", sp.get("nx", 3), extra=tuple(e for e in ("f", "t", "d", "s") if e in need))
+        xs = S.make_objects(mk, Item, "x_", sp.get("nx", 3), extra=tuple(e for e in ("f", "t", "d", "s", "sl") if e in need))
         data = dict(xs=xs)
         try:
             if kind == "operand":
